@@ -36,7 +36,7 @@ CTX = {"random_integer/3": CTX_RI, "set_random/1": CTX_SR}
 # (prolog text, canonical text) of non-integer, non-variable arguments
 OTHERS = [("a", "'a'"), ("1.5", "f(3ff8000000000000)"), ("foo(1)", "'foo'(1)"), ("\"ab\"", "\"ab\""),
           ("[]", "[]"), ("2^70", "'^'(2,70)"), ("[1]", "[1]"), ("0.0", "f(0000000000000000)"),
-          ("1 rdiv 2", "'rdiv'(1,2)"), ("seed(1)", "'seed'(1)"), ("- 1", "'-'(1)")]
+          ("1 rdiv 2", "'rdiv'(1,2)"), ("seed(1)", "'seed'(1)")]
 OTHER_CAN = dict(OTHERS)
 
 
@@ -45,7 +45,7 @@ def transient(r):
 
 
 # ------------------------------------------------------------------ abstract calls
-# arg: "v" | int | ("o", prolog_text)
+# arg: "v" | int (a literal) | ("o", prolog_text) | ("b", int): the integer held in an arena Integer whatever its value
 # call: {"k":"S","a":"v"|"sv"|"x"|int|("o",text)} | {"k":"I","l":arg,"u":arg,"r":arg,"n":reps}
 #       | {"k":"R","r":arg,"n":reps} | {"k":"M","n":reps} | {"k":"RESET"} (fresh machine, impl only)
 
@@ -54,15 +54,36 @@ def arg_pl(a, var):
         return var
     if isinstance(a, int):
         return str(a)
+    if a[0] == "b":
+        return var + "b"
     return a[1]
+
+
+def arg_pre(a, var):
+    """goal prefix that builds an un-normalised arena integer (bignum arithmetic never renormalises)."""
+    if isinstance(a, tuple) and a[0] == "b":
+        return "%sb is 2^80-2^80+(%d)," % (var, a[1])
+    return ""
 
 
 def arg_tok(a):
     if a == "v":
         return "v"
     if isinstance(a, int):
-        return "i:%d" % a
+        # the reader builds a negative literal by negating the positive one: -2^55 is an arena Integer
+        return ("b:%d" if a == -(1 << 55) else "i:%d") % a
+    if a[0] == "b":
+        return "b:%d" % a[1]
     return "o:" + OTHER_CAN[a[1]]
+
+
+def ival(a):
+    """integer value of an integer argument, else None."""
+    if isinstance(a, int):
+        return a
+    if isinstance(a, tuple) and a[0] == "b":
+        return a[1]
+    return None
 
 
 def call_pl(c):
@@ -80,7 +101,7 @@ def call_pl(c):
             return "set_random(seed(%d))." % a
         return "set_random(seed(%s))." % a[1]
     if k == "I":
-        g = "random_integer(%s,%s,%s)" % (arg_pl(c["l"], "_L"), arg_pl(c["u"], "_U"), arg_pl(c["r"], "X"))
+        g = "%s%srandom_integer(%s,%s,%s)" % (arg_pre(c["l"], "_L"), arg_pre(c["u"], "_U"), arg_pl(c["l"], "_L"), arg_pl(c["u"], "_U"), arg_pl(c["r"], "X"))
     elif k == "R":
         g = "random(%s)" % arg_pl(c["r"], "X")
     else:
@@ -110,8 +131,8 @@ def call_tok(c):
 
 
 def words_estimate(c):
-    if c["k"] == "I" and isinstance(c["l"], int) and isinstance(c["u"], int) and c["u"] > c["l"]:
-        return c.get("n", 1) * (6 + 2 * ((c["u"] - c["l"]).bit_length() // 64 + 1)) * 2
+    if c["k"] == "I" and ival(c["l"]) is not None and ival(c["u"]) is not None and ival(c["u"]) > ival(c["l"]):
+        return c.get("n", 1) * (6 + 2 * ((ival(c["u"]) - ival(c["l"])).bit_length() // 64 + 1)) * 2
     return c.get("n", 1) * 4
 
 
@@ -174,7 +195,9 @@ def impl_outcomes(c, res):
         if res == "true":
             return ["true"]
         if res.startswith("{X=") and res.endswith("}"):
-            return [res[3:-1]]
+            return [res[3:-1].split(",_")[0]]       # helper variables _Lb/_Ub follow X
+        if res.startswith("{_") and res.endswith("}") and "X=" not in res:
+            return ["true"]
         return None
     if res.startswith("{Xs=") and res.endswith("}"):
         l = parse_list(res[4:-1])
@@ -218,10 +241,11 @@ def oracle(c, outs):
             return None if outs == ["fails"] else "third argument is not a variable: the documented mode is -R"
         if l == "v" or u == "v":
             return None if outs == ["inst(random_integer/3)"] else "unbound bound must raise instantiation_error"
-        if not isinstance(l, int):
+        if ival(l) is None:
             return None if outs == ["type(%s,random_integer/3)" % OTHER_CAN[l[1]]] else "non-integer Lower must raise type_error(integer, Lower)"
-        if not isinstance(u, int):
+        if ival(u) is None:
             return None if outs == ["type(%s,random_integer/3)" % OTHER_CAN[u[1]]] else "non-integer Upper must raise type_error(integer, Upper)"
+        l, u = ival(l), ival(u)
         if u <= l:
             return None if outs in (["fails"], []) else "empty range must fail"
         if len(outs) != c.get("n", 1):
@@ -297,6 +321,12 @@ def gen_call(rng, bulk):
         c = {"k": "I", "l": l, "u": u, "r": "v"}
         if u > l and rng.random() < 0.35:
             c["n"] = bulk
+        if rng.random() < 0.08:      # the same integers held un-normalised in arena Integers
+            w = rng.choice(["l", "u", "lu"])
+            if "l" in w:
+                c["l"] = ("b", l)
+            if "u" in w:
+                c["u"] = ("b", u)
         return c
     if r < 0.72:
         return {"k": "R", "r": "v", "n": rng.choice([1, 1, bulk])}
@@ -366,7 +396,7 @@ def judge_case(case, impl, model, stats):
     """returns list of findings."""
     calls, ids = case["calls"], case["ids"]
     mline = model.get(case["id"] + "_m", "missing")
-    mtoks = mline.split(" pos=")[0].split(",") if " pos=" in mline else []
+    mtoks = mline.split(" pos=")[0].split(";") if " pos=" in mline else []
     findings = []
     pos = 0
     seeded = False
@@ -444,12 +474,12 @@ def mini_calls(calls, j):
 
 def kind_of(c, io):
     k = c["k"]
-    if k == "I" and isinstance(c["l"], int) and isinstance(c["u"], int) and c["r"] == "v":
-        if c["u"] <= c["l"]:
+    if k == "I" and ival(c["l"]) is not None and ival(c["u"]) is not None and c["r"] == "v":
+        if ival(c["u"]) <= ival(c["l"]):
             return "I:empty"
-        fix = lambda n: -P(55) <= n < P(55)
-        span = c["u"] - c["l"]
-        arm = ("fix" if fix(c["l"]) else "big") + "/" + ("fix" if fix(c["u"]) else "big")
+        rep = lambda a: "unnormalised-big" if (not isinstance(a, int) or a == -P(55)) and -P(55) <= ival(a) < P(55) else ("fix" if -P(55) <= ival(a) < P(55) else "big")
+        span = ival(c["u"]) - ival(c["l"])
+        arm = rep(c["l"]) + "/" + rep(c["u"])
         if arm == "fix/fix":
             return "I:fix/fix"
         return "I:%s:%s" % (arm, "u128" if span < P(128) else "words%d" % ((span.bit_length() + 63) // 64))
